@@ -201,8 +201,11 @@ Lemma kind_table_ok : kind_table = kind_table_def.
 Proof. vm_compute. reflexivity. Qed.
 
 Lemma check_case_run_kind c rs : In (k_era c) eras4 -> rules_of (k_era c) = Some rs ->
-  check_case c = list_eqb result_eqb
-    (map (fun k => run_kind rs k (mk_tx (k_nred c) (k_inputs c) (k_fee c) (k_ret c) (k_pct c) (k_max c))) kinds) (k_obs c).
+  check_case c =
+    (list_eqb result_eqb
+      (map (fun k => run_kind rs k (mk_tx (k_nred c) (k_inputs c) (k_fee c) (k_ret c) (k_pct c) (k_max c))) kinds) (k_obs c) &&
+     list_eqb result_eqb
+      (map (fun k => run_kind rs k (mk_tx (k_nred c) (k_inputs c) (k_fee c) (k_ret c) (k_pct c) (k_max c))) kinds) (k_obs2 c))%bool.
 Proof.
   intros He H. unfold check_case. rewrite kind_table_ok. unfold kind_table_def.
   assert (forall l, In (k_era c) l ->
